@@ -626,6 +626,9 @@ fn batched(req: &J) -> J {
     use std::collections::{HashMap, HashSet};
     struct Counting<'a> {
         inner: TestEntityLoader<'a>,
+        store: &'a Entities,
+        prefetch: bool,
+        delivered: HashSet<EntityUid>,
         calls: u32,
         requested: Vec<Vec<String>>,
     }
@@ -635,7 +638,24 @@ fn batched(req: &J) -> J {
             let mut v: Vec<String> = uids.iter().map(|u| u.to_string()).collect();
             v.sort();
             self.requested.push(v);
-            self.inner.load_entities(uids)
+            let mut out = self.inner.load_entities(uids);
+            if self.prefetch {
+                // the documented contract allows a loader to return more than it was asked for: also hand over the ancestors of what was requested
+                let extra: Vec<EntityUid> = out.values().flatten().flat_map(|e| self.store.ancestors(&e.uid()).into_iter().flatten().cloned().collect::<Vec<_>>()).collect();
+                for u in extra {
+                    // (never the same entity twice: is_authorized_batched rejects an entity it already holds as a duplicate)
+                    if self.delivered.contains(&u) {
+                        continue;
+                    }
+                    if let Some(e) = self.store.get(&u) {
+                        out.entry(u).or_insert_with(|| Some(e.clone()));
+                    }
+                }
+            }
+            for u in out.keys() {
+                self.delivered.insert(u.clone());
+            }
+            out
         }
     }
     let (schema, _) = match Schema::from_cedarschema_str(req["schema"].as_str().unwrap_or("")) {
@@ -671,7 +691,7 @@ fn batched(req: &J) -> J {
     let mut out = vec![];
     for b in req["budgets"].as_array().cloned().unwrap_or_default() {
         let budget = b.as_u64().unwrap_or(0) as u32;
-        let mut loader = Counting { inner: TestEntityLoader::new(&ents), calls: 0, requested: vec![] };
+        let mut loader = Counting { inner: TestEntityLoader::new(&ents), store: &ents, prefetch: req["prefetch"].as_bool().unwrap_or(false), delivered: HashSet::new(), calls: 0, requested: vec![] };
         let res = match pset.is_authorized_batched(&q, &schema, &mut loader, budget) {
             Ok(d) => format!("{d:?}"),
             Err(e) => {
